@@ -63,7 +63,7 @@ def evaluate(case):
 
 
 def shards(tier, seed):
-    n = 2500 if tier == "thorough" else 260
+    n = 12000 if tier == "thorough" else 1300
     return [{"seed": seed, "lo": i * n, "hi": (i + 1) * n} for i in range(16)]
 
 
